@@ -18,34 +18,68 @@ MANIFEST = {
             "non-zero and every coil is exactly 0 elsewhere (iff the input vanishes there); renormalisation is idempotent; the RSS "
             "estimate (safe_divide -> norm -> safe_divide) equals one renormalisation; single coil, all-zero ACS image, unit map and "
             "arbitrary refinement-network output are covered; finiteness is the theorem that no result depends on the value of a "
-            "division by zero (division is a parameter of the model). Tied to the code by translating safe_divide's guard/branches, "
-            "the reduction and unsqueeze axes, sqrt/exponent and the statement order into Lean (bridge lemmas) and by an exact "
-            "rational differential correspondence.",
-    "note": "Trusted: Lean kernel (+propext, Classical.choice, Quot.sound), Mathlib's Real.sqrt, the AST recipes of "
-            "harness/translate/recipes/c09.py, the reshape (batch, coil, *spatial, 2) -> [coil][pixel] in Driver/C09.lean (validated by "
-            "correspondence). Partial: float32 rounding (oracle tolerance 1e-5) and overflow/underflow of the squared sum — the "
-            "implementation is checked for magnitudes 2^-60 < |x| < 2^60 only; outside that range the squared sum overflows to inf "
-            "or underflows to 0 and the map degenerates to 0 (finite, but not unit). ESPIRIT maps are not modelled (oracle only "
-            "through the common renormalisation tail). Gaussian ACS weighting only changes the ACS image and is oracle-checked.",
-    "technique": "Lean 4 proof over ℝ (Mathlib Real.sqrt) + AST translation bridge (safe_divide, axes, order) + exact-rational "
-                 "differential correspondence (perfect-square coil vectors) + unit-or-zero / finiteness oracle on the real code",
+            "division by zero (division is a parameter of the model) plus closure of an abstract 'finite' predicate. Phase 3: the "
+            "whole module is modelled — ACS k-space = k-space x mask x Gaussian window with the linspace(-1,1,W) coordinates "
+            "(W = 1 gives [-1], no division), guard for sigma None/0, arbitrary backward operator; all three map types (UNIT, "
+            "RSS_ESTIMATE, ESPIRIT with an arbitrary calibrator) flow into the one guarded division (forward_normalised, "
+            "forward_finite, forward_indep_div_zero); per-pixel positive weights and global scale cancel exactly "
+            "(renorm_weight_invariant, estimate_gauss_eq_plain); the window never divides by zero and finite weights keep maps "
+            "finite (acsKspace_indep_div_zero, gaussWeight_finite, estimate_gauss_finite; witness arange_window_violates for the "
+            "seeded variant); ESPIRiT's last step keeps the power method's normalisation (sumSqAt_espiritTail) but is unguarded "
+            "(espirit_phase_unguarded); the engine's choice of refinement model and its channel-first permutations are translated "
+            "definitions; magnitudes: for <= 64 coils with entries in [2^-60, 2^60] every intermediate (squares, sum, norm, "
+            "quotient) stays inside the float32 normal range (sumsq_in_normal_range, norm_in_normal_range, "
+            "quotient_in_normal_range; bound attained; end-of-range witnesses at 2^64 / 2^-75). Tied to the code by translating "
+            "safe_divide's guard/branches, the reduction and unsqueeze axes, sqrt/exponent, statement order, window (linspace end "
+            "points, divisor, guard clauses, axis), the branch table of forward, an effects table (no state write / in-place op / "
+            "early return), option forwarding of both constructor sites and build_mri_transforms, the single definition of "
+            "compute_sensitivity_map, the model-choice branch structure and permutations into Lean (bridge lemmas) and by an exact "
+            "rational differential correspondence (ops estimate, estgauss, window, forward, engine, choice, unit, safediv).",
+    "note": "Trusted: Lean kernel (+propext, Classical.choice, Quot.sound), Mathlib's Real.sqrt / Real.exp, the AST recipes of "
+            "harness/translate/recipes/c09.py and c09_tables.py, the reshape (batch, coil, *spatial, 2) -> [coil][pixel] in "
+            "Driver/C09.lean (validated by correspondence), the rational surrogate 1/(1+x) for exp(-x) in the driver (justified by "
+            "renorm_weight_invariant: with a pixel-wise backward operator the result does not depend on which positive weights are "
+            "used). Partial: float32 rounding (oracle tolerance 1e-5); the range theorems are over the reals (sizes of exact "
+            "intermediates), the step to IEEE rounding is the standard model, not proved; outside 2^-60..2^60 (per pixel: largest "
+            "magnitude over coils) only finiteness is judged — observed on the implementation (notes in the evidence): with 1 coil the "
+            "maps stay unit from 2^-74 up to 2^63, become 0 at 2^64 (norm Inf, x/Inf = 0) and from 2^-75 down (squares underflow to "
+            "0); with 64 coils they are 0 already at 2^61 (the sum of 128 squares overflows), exactly where range_bound_attained "
+            "puts the limit. ESPIRiT's "
+            "calibration (SVD, power method) is not modelled: the calibrator is an arbitrary function in the theorems; the real "
+            "path runs in the oracle at tiny sizes over its option grid (kernel size, threshold, crop, iterations, padded coils) "
+            "wherever the calibration matrix has at least as many rows as columns (otherwise the implementation raises "
+            "IndexError: domain of ESPIRiT, outside the statement); its unguarded x*conj(x)/|x| is a model-level witness only "
+            "(SVD round-off keeps real inputs away from exact zeros).",
+    "technique": "Lean 4 proof over ℝ (Mathlib Real.sqrt, Real.exp) + AST translation bridge (safe_divide, axes, order, window, "
+                 "branch/effects/forwarding tables, model choice) + exact-rational differential correspondence (perfect-square coil "
+                 "vectors, recovered window exponents) + unit-or-zero / finiteness / history / aliasing oracle on the real code over "
+                 "the full option x size-class matrix, every engine class and the range boundary",
 }
 TRUSTED = [
-    "Lean 4.33 kernel; axioms ⊆ {propext, Classical.choice, Quot.sound}; Mathlib.Analysis.Real.Sqrt",
-    "harness/translate/recipes/c09.py (safe_divide guard/branches, sum/unsqueeze axes, sqrt, exponent, statement order)",
+    "Lean 4.33 kernel; axioms ⊆ {propext, Classical.choice, Quot.sound}; Mathlib.Analysis.Real.Sqrt, Mathlib.Analysis.Complex.Exponential",
+    "harness/translate/recipes/c09.py + c09_tables.py (safe_divide guard/branches, sum/unsqueeze axes, sqrt, exponent, statement order, "
+    "window, forward branch table, effects, option forwarding, definitions of compute_sensitivity_map, model choice, permutations)",
     "Driver/C09.lean reshape of (batch, coil, *spatial, complex=2) into [coil][pixel] — validated by correspondence",
-    "recovery of exact rationals from float32 outputs by Fraction.limit_denominator(1024) within 2e-6",
-    "the backward Fourier operator and the refinement network are arbitrary (parameters / planted outputs)",
+    "recovery of exact rationals from float32 outputs by Fraction.limit_denominator(1024) within 2e-6 (maps) / 4e-6 (window exponents -ln w)",
+    "the driver's positive rational surrogate for exp(-x) (the compared quantity is independent of it by renorm_weight_invariant)",
+    "the backward Fourier operator, the ESPIRiT calibrator and the refinement network are arbitrary (parameters / planted outputs)",
 ]
 ASSUMPTIONS = [
-    "correspondence inputs are integer-valued with a perfect-square squared sum over coils at every pixel (sqrt exact)",
-    "oracle: unit-or-zero within 1e-5, finiteness, for float32 magnitudes 2^-60 < |x| < 2^60 (stated partial outside)",
+    "correspondence inputs are integer-valued with a perfect-square squared sum over coils at every pixel (sqrt exact); 0/1 ACS masks; "
+    "sigma in {None, 0, 1/2, 1, 2, -1/2}; widths 1..10 for the window coordinates",
+    "oracle: unit-or-zero within 1e-5, finiteness, for float32 magnitudes 2^-60 <= |x| <= 2^60 per pixel (largest magnitude over coils; "
+    "boundary included, up to 64 coils); outside only finiteness is judged (stated partial)",
+    "the real ESPIRiT path is exercised only where it is defined: 2-D, calibration matrix with rows >= columns, at least one non-zero coil",
     "simulate_sensitivity_maps is checked in complex128 within 1e-9",
 ]
 RULE = ("coil images (batch, coil, [slice], h, w, 2) whose per-pixel coil vectors are integer tuples with perfect-square squared sum "
         "(dyadic: 4^k, exact in float32; pythagorean: any), with planted zero pixels, zero coils, zero borders, one coil, empty ACS "
-        "masks, 3-D data; engine path with a marker network returning planted integer tensors. non-trivial = at least two coils or "
-        "a mix of zero and non-zero pixels; distinct = distinct protocol line / oracle case key")
+        "masks, 3-D data; engine path with a marker network returning planted integer tensors; phase 3: a fixed matrix of size "
+        "classes (1 along each spatial axis, odd, even, non-square, 2-D and 3-D) x sigma forms x map types x ACS kinds in both the "
+        "correspondence and the oracle, window coordinates for every width 1..10, all 16 model-choice combinations, histories on one "
+        "instance (different shapes, same shapes with new data, first sample again), every engine class, ESPIRiT option grid, "
+        "boundary magnitudes 2^±59, 2^±60 with 1..64 coils. non-trivial = at least two coils or a mix of zero and non-zero pixels "
+        "(window: W >= 2 with an active sigma); distinct = distinct protocol line / oracle case key")
 PENDING_FINDINGS: list[str] = []
 EXTRA_LEAN_MODULES = ["DirectVerif.Lemmas.C09"]   # helper lemmas: hygiene-checked and axiom-audited too
 
